@@ -21,6 +21,36 @@ UNUSED_KEYS = ["f5", "page up", "page down", "esc", "ctrl x", "shift tab", "inse
                "ctrl l", "shift f1"]
 
 
+WIDE_ENCS = ["euc-jp", "big5", "gbk", "uhc", "euc-kr"]     # urwid's 'wide' (double-byte) byte encodings
+_WIDE_ALPHA = {}
+
+
+def wide_alphabet(enc):
+    """Two-byte characters of a double-byte encoding at every boundary of its lead- and trail-byte
+    ranges (first/last value of every contiguous run of valid trail bytes, first/last lead byte)."""
+    if enc in _WIDE_ALPHA:
+        return _WIDE_ALPHA[enc]
+    by_trail, by_lead = {}, {}
+    for lead in range(0x81, 0xFF):
+        for trail in range(0x40, 0xFF):
+            try:
+                ch = bytes([lead, trail]).decode(enc)
+            except UnicodeDecodeError:
+                continue
+            if len(ch) == 1 and ch.encode(enc) == bytes([lead, trail]):
+                by_trail.setdefault(trail, ch)
+                by_lead.setdefault(lead, ch)
+    picks = []
+    for table in (by_trail, by_lead):
+        vals = sorted(table)
+        for i, v in enumerate(vals):
+            if i == 0 or vals[i - 1] != v - 1 or i == len(vals) - 1 or vals[i + 1] != v + 1:
+                if table[v] not in picks:
+                    picks.append(table[v])
+    _WIDE_ALPHA[enc] = picks
+    return picks
+
+
 class CaseTimeout(BaseException):
     """The implementation did not return within the per-case CPU time limit (a hang is a violation)."""
 
@@ -140,7 +170,9 @@ class C10(core.Check):
             "its own width 1..9; exhaustive single events on every text of length <= 3 over {a, space, wide, newline} "
             "at widths 1..3 plus random histories; a separate bytes stream judged by the oracle only: utf-8 exhaustive "
             "(every text <= 3 of 1/2/3/4-byte characters x every boundary x left/right/backspace/delete) and random "
-            "(utf-8 with 1..4-byte and combining characters, euc-jp, big5, latin-1); non-trivial = some event changed the text or the offset; distinct by hash of (case, outcome)")
+            "(utf-8 with 1..4-byte and combining characters; euc-jp, big5, gbk, uhc, euc-kr with the two-byte characters at "
+            "every boundary of the lead/trail byte ranges and ASCII '~' '@' '\\', exhaustive texts <= 2 x boundaries x keys x "
+            "clicks; latin-1); non-trivial = some event changed the text or the offset; distinct by hash of (case, outcome)")
     trusted_base = [
         "Coq 8.16.1 kernel (coqc; vm_compute used only for closed examples)",
         "extraction: ExtrOcamlBasic only; Z/positive stay Coq datatypes; OCaml 4.13.1",
@@ -559,7 +591,7 @@ class C10(core.Check):
             if not (0 <= np_ <= len(nt)):
                 msgs.append(f"{tag}: offset {np_} outside 0..{len(nt)}")
                 return msgs
-            if isb and enc in ("utf-8", "euc-jp", "big5") and not boundary_ok(nt, np_):
+            if isb and (enc == "utf-8" or enc in WIDE_ENCS) and not boundary_ok(nt, np_):
                 # only judged when the text itself is valid in the encoding
                 try:
                     bytes(nt).decode(enc)
@@ -1157,9 +1189,11 @@ class C10(core.Check):
         if enc == "utf-8":
             chars = ["a", "b", " ", WIDE, ACC, COMB, ASTRAL, ASTRAL2, ASTRAL]      # 1, 2, 3 and 4 byte characters
             keych = ["a", " ", WIDE, ACC, ASTRAL]
-        elif enc in ("euc-jp", "big5"):
-            chars = ["a", " ", WIDE, "界", "b", "@", "A"]
-            keych = ["a", " ", "@"]
+        elif enc in WIDE_ENCS:
+            # ASCII whose byte values lie in the low trail-byte range, and two-byte characters at every
+            # boundary of the encoding's lead/trail ranges
+            chars = ["a", " ", "@", "~", "\\", "A"] + wide_alphabet(enc) * 2
+            keych = ["a", " ", "@", "~"]
         else:
             chars = ["a", " ", ACC, "b"]
             keych = ["a", " "]
@@ -1192,13 +1226,35 @@ class C10(core.Check):
                                    "multiline": True, "allow_tab": False, "mask": None, "wrap": "any", "align": "left",
                                    "steps": [["key", kname, 6], ["key", kname, 6], ["render", True, 6]]}
 
+    def exhaustive_wide_cases(self, maxlen):
+        """bytes mode under every double-byte encoding: every text up to maxlen over ASCII '~' '@' 'a' and the
+        boundary characters of the encoding, the cursor on every character boundary, every one-character
+        movement / deletion key twice, then a focused render and a click on every column."""
+        for enc in WIDE_ENCS:
+            alpha = ["a", "~", "@"] + wide_alphabet(enc)
+            for n in range(0, maxlen + 1):
+                for tup in itertools.product(alpha, repeat=n):
+                    text = "".join(tup)
+                    ncols = len(text.encode(enc))
+                    base = {"variant": ["edit"], "bytes": True, "enc": enc, "caption": "", "text": text, "multiline": True,
+                            "allow_tab": False, "mask": None, "wrap": "clip", "align": "left"}
+                    for k in range(0, n + 1):
+                        pos = len(text[:k].encode(enc))
+                        for kname in ("left", "right", "backspace", "delete"):
+                            yield dict(base, pos=pos, steps=[["key", kname, 12], ["key", kname, 12], ["render", True, 12]])
+                    if n:
+                        steps = []
+                        for col in range(0, ncols + 1):
+                            steps += [["render", True, 12], ["click", 1, col, 0, 12]]
+                        yield dict(base, pos=None, steps=steps)
+
     def extra_checks(self, tier, rng, ev):
         out = []
         # 1. bytes mode under the other encodings: oracle only (offset range, character boundary, reference editor);
         #    utf-8 bytes cases are ordinary cases (model + oracle)
         n = 375 if tier == "quick" else 3000
-        stream = [self.bytes_case(rng, enc) for enc in ("euc-jp", "big5", "latin-1") for _ in range(n // 3)]
-        for c in stream:
+        stream = [self.bytes_case(rng, enc) for enc in WIDE_ENCS + ["latin-1"] for _ in range(n // 3)]
+        for c in itertools.chain(self.exhaustive_wide_cases(2 if tier == "quick" else 3), stream):
             if True:
                 res = self.run_impl(c)
                 ev["evaluations"] += 1
